@@ -38,7 +38,13 @@ func loadProgram() (*sym.Program, error) {
 	if hd == "" {
 		hd = verifDir + "/harness/larking"
 	}
-	return sym.Load(repo, "larking", "larking.io/larking", hd)
+	p, err := sym.Load(repo, "larking", "larking.io/larking", hd)
+	if err == nil {
+		for f, msg := range p.Dropped {
+			fmt.Fprintf(os.Stderr, "WARNING: harness file %s does not compile against this tree and was left out: %s\n", f, msg)
+		}
+	}
+	return p, err
 }
 
 // loadProgramOverlayOnly builds just the overlay map (no type-checking), for native replays.
@@ -127,4 +133,3 @@ func cmdRun(args []string) int {
 	}
 	return 0
 }
-
